@@ -370,7 +370,8 @@ def sweep():
     r = pdf_pairs(skip=("AES-128|",))        # AES-128 with the empty password: recorded finding F28 (replayed by id)
     if r is not None:
         return r
-    return None
+    # 9. stored RC4 / AES-128 / AES-256 copies of a tiny PDF, each read in a fresh process; the AES patch itself
+    return aes_patch_check() or embedded_pdfs()
 
 
 _PDF_WRITER = r"""
@@ -441,16 +442,132 @@ def pdf_pairs(only=None, skip=()):
     return None
 
 
+_PDF_READER = r"""
+import io, json, sys, logging
+logging.disable(logging.CRITICAL)
+sys.path.insert(0, sys.argv[1])
+import base64, zlib
+from sharepoint2text.parsing.extractors.pdf.pdf_extractor import read_pdf
+from sharepoint2text.parsing.exceptions import ExtractionFileEncryptedError
+data = zlib.decompress(base64.b64decode(sys.stdin.read()))
+n, text = 0, None
+try:
+    for r in read_pdf(io.BytesIO(data), 'a.pdf'):
+        n += 1
+        text = r.get_full_text()
+    v = 'ok'
+except ExtractionFileEncryptedError:
+    v = 'encrypted'
+except Exception as e:
+    v = 'other:' + type(e).__name__ + ': ' + str(e)[:100] + ' / cause: ' + repr(e.__cause__)[:120]
+print(json.dumps({'verdict': v, 'n': n, 'text': text}))
+"""
+
+
+def embedded_pdfs(only=None):
+    """The stored copies of one tiny PDF (replay/C08_pdfs.json: plain, and RC4-40/128, AES-128, AES-256 R5/R6 each with the
+    empty and with a non-empty user password; written once by pypdf).  Each is read by the real read_pdf in a FRESH process
+    (whether pypdf's AES hooks are patched is process state): empty password => the text of the plain original,
+    non-empty => ExtractionFileEncryptedError with 0 results."""
+    import json
+    import subprocess
+    import sys
+    docs = json.load(open(os.path.join(os.path.dirname(os.path.abspath(__file__)), "C08_pdfs.json")))
+
+    def read(key):
+        pr = subprocess.run([sys.executable, "-c", _PDF_READER, REPO], input=docs[key], capture_output=True, text=True, timeout=120)
+        try:
+            return json.loads(pr.stdout.strip().splitlines()[-1])
+        except Exception:  # noqa
+            return {"verdict": "other:reader crashed " + (pr.stderr or "")[-200:], "n": 0, "text": None}
+    base = read("plain")
+    if base["verdict"] != "ok" or "quarterly totals 1234" not in (base["text"] or ""):
+        return fail("read_pdf", {"stored_pdf": "plain"}, "extracts", str(base))
+    for key in sorted(k for k in docs if k != "plain"):
+        if only is not None and not any(key.startswith(o) for o in only):
+            continue
+        algo, pw = key.split("|")
+        r = read(key)
+        inp = {"stored_pdf": "replay/C08_pdfs.json[" + key + "]", "algorithm": algo, "user_password": "non-empty" if pw else "empty", "process": "fresh"}
+        if pw and (r["verdict"] != "encrypted" or r["n"] != 0):
+            return fail("read_pdf", inp, "ExtractionFileEncryptedError, 0 results", f"{r['verdict']}, {r['n']} result(s)")
+        if not pw and (r["verdict"] != "ok" or r["text"] != base["text"]):
+            return fail("read_pdf", inp, "same text as the unencrypted original", f"{r['verdict']}, same_text={r['text'] == base['text']}")
+    return None
+
+
+_PATCH_PROBE = r"""
+import json, sys
+sys.path.insert(0, sys.argv[1])
+import pypdf, pypdf._encryption, pypdf._crypt_providers, pypdf._crypt_providers._fallback as fb
+import sharepoint2text.parsing.extractors.pdf._pypdf_aes_fallback as A
+names = ('aes_ecb_encrypt', 'aes_ecb_decrypt', 'aes_cbc_encrypt', 'aes_cbc_decrypt')
+importers = sorted(m for m, mod in list(sys.modules.items()) if m.startswith('pypdf') and mod is not None
+                   and any(hasattr(mod, n) for n in names + ('CryptAES',)))
+ret = A.patch_pypdf_fallback_aes()
+stale = []
+for m in importers:
+    mod = sys.modules[m]
+    for n in names:
+        if hasattr(mod, n) and getattr(mod, n) is not getattr(A, n):
+            stale.append(m + '.' + n)
+    c = getattr(mod, 'CryptAES', None)
+    if c is not None:
+        try:
+            if c(b'k' * 16).decrypt(c(b'k' * 16).encrypt(b'probe')) != b'probe':
+                stale.append(m + '.CryptAES (round trip)')
+        except Exception as e:
+            stale.append(m + '.CryptAES (' + type(e).__name__ + ')')
+print(json.dumps({'provider': pypdf._crypt_providers.crypt_provider[0], 'returned': ret, 'importers': importers, 'stale': stale}))
+"""
+
+
+def patch_probe():
+    """Fresh process: call the real patch_pypdf_fallback_aes() and look at every pypdf module that holds its own binding of
+    the AES names.  -> dict(provider, returned, importers, stale)."""
+    import json
+    import subprocess
+    import sys
+    pr = subprocess.run([sys.executable, "-c", _PATCH_PROBE, REPO], capture_output=True, text=True, timeout=120)
+    try:
+        return json.loads(pr.stdout.strip().splitlines()[-1])
+    except Exception:  # noqa
+        return {"error": (pr.stderr or pr.stdout)[-300:]}
+
+
+ASSUMED_IMPORTERS = ["pypdf._crypt_providers", "pypdf._crypt_providers._fallback", "pypdf._encryption"]
+
+
+def aes_patch_check():
+    pb = patch_probe()
+    if pb.get("error"):
+        return None
+    if pb["provider"] == "local_crypt_fallback" and (pb["returned"] is not True or pb["stale"]):
+        r = embedded_pdfs(only=("AES-256",)) or embedded_pdfs(only=("AES-128",))
+        rec = fail("patch_pypdf_fallback_aes", {"process": "fresh", "provider": pb["provider"]},
+                   "returns True and every pypdf module that bound the AES names resolves them to the built-in AES",
+                   f"returned {pb['returned']}; still pypdf's raising stubs: {pb['stale']}")
+        if r is not None:
+            rec["inputs"].update(r["inputs"])
+            rec["observed"] += " -> read_pdf: " + r["observed"]
+        return rec
+    return None
+
+
 def find(req):
     import logging
     logging.disable(logging.CRITICAL)
     if req.get("known_finding"):
         ok, inputs, obs = finding(req["known_finding"])
         return {"reproduced": bool(ok), "inputs": inputs, "observed": obs, "expected": EXPECT}
+    ob = req.get("obligation", "")
+    if "patch_pypdf_fallback_aes" in ob or "pdf_extractor" in ob:
+        r = aes_patch_check() or embedded_pdfs()
+        if r is not None:
+            return r
     r = sweep()
     if r is not None:
         return r
-    ob = req.get("obligation", "")
     for key, fid in OBLIGATION_TO_FINDING.items():
         if key in ob:
             ok, inputs, obs = finding(fid)
